@@ -2,6 +2,8 @@ package sym
 
 import (
 	"fmt"
+	"go/types"
+	"net"
 	"strconv"
 
 	"golang.org/x/tools/go/ssa"
@@ -115,3 +117,67 @@ func registerMisc(reg func(string, intrinsic)) {
 }
 
 var _ = fmt.Sprint
+
+// ---- net: address parsing on concrete strings is computed natively ----
+//
+// net.SplitHostPort / net.ParseIP / IP.IsLoopback / IP.String / IP.To4 /
+// IP.Equal are pure functions of their (here always concrete) arguments; the
+// standard library's implementation (netip, unique handles, unsafe) is not
+// interpreted.
+
+func (in *Interp) concreteBytesOf(v Value, what string) []byte {
+	sl, ok := v.(SliceV)
+	if !ok {
+		in.unsupported(what + ": expected a byte slice")
+	}
+	if sl.Arr == nil {
+		return nil
+	}
+	c, ok := in.allConcrete(in.bytesOf(v))
+	if !ok {
+		in.unsupported(what + ": symbolic bytes")
+	}
+	return c
+}
+
+func (in *Interp) rawBytesToSlice(b []byte) Value {
+	if b == nil {
+		return SliceV{}
+	}
+	arr := in.newArrayLoc(types.Typ[types.Uint8], len(b))
+	for i, x := range b {
+		arr.Kids[i].V = in.st.Const(8, uint64(x))
+	}
+	return SliceV{Arr: arr, Len: len(b), Cap: len(b)}
+}
+
+func registerNet(reg func(string, intrinsic)) {
+	note := func(in *Interp) {
+		in.ex.noteStub("net.SplitHostPort / ParseIP / IP methods on concrete arguments are computed natively")
+	}
+	reg("net.SplitHostPort", func(in *Interp, fn *ssa.Function, a []Value) Value {
+		note(in)
+		h, p, err := net.SplitHostPort(in.argStr(a[0]))
+		var e Value = IfaceV{}
+		if err != nil {
+			e = in.newError(StrV{S: err.Error()})
+		}
+		return Tuple{StrV{S: h}, StrV{S: p}, e}
+	})
+	reg("net.ParseIP", func(in *Interp, fn *ssa.Function, a []Value) Value {
+		note(in)
+		return in.rawBytesToSlice(net.ParseIP(in.argStr(a[0])))
+	})
+	reg("(net.IP).IsLoopback", func(in *Interp, fn *ssa.Function, a []Value) Value {
+		return in.st.Bool(net.IP(in.concreteBytesOf(a[0], "IP.IsLoopback")).IsLoopback())
+	})
+	reg("(net.IP).String", func(in *Interp, fn *ssa.Function, a []Value) Value {
+		return StrV{S: net.IP(in.concreteBytesOf(a[0], "IP.String")).String()}
+	})
+	reg("(net.IP).To4", func(in *Interp, fn *ssa.Function, a []Value) Value {
+		return in.rawBytesToSlice(net.IP(in.concreteBytesOf(a[0], "IP.To4")).To4())
+	})
+	reg("(net.IP).Equal", func(in *Interp, fn *ssa.Function, a []Value) Value {
+		return in.st.Bool(net.IP(in.concreteBytesOf(a[0], "IP.Equal")).Equal(net.IP(in.concreteBytesOf(a[1], "IP.Equal"))))
+	})
+}
